@@ -17,7 +17,7 @@ Coordinate values/attributes and the name of the result are produced by xarray (
 from __future__ import annotations
 
 from ..absint import TOP, Evaluator, Obj, Sym, Unmodelled
-from ..harness import run_apply
+from ..harness import coord_tracking_models, run_apply
 from ..xmodel import dimsym, make_da, make_grid
 from .c02 import run_pad
 from .c09 import _run_cumsum
@@ -102,86 +102,29 @@ def _pass_through(ctx, P):
             if after:
                 bad = bad or f"operations {after} follow the re-attachment"
             inst = f"{name}: no stale coordinate reaches the re-attachment"
-            try:
-                stale = _stale_before_reattach(v, i, dimsym("AX", fr), dimsym("AX", to))
-            except Unmodelled as e:
-                ctx.unknown("R19.4", inst, str(e))
+            # what is handed to _reattach_coords: the coordinates the array still carries (tracked through xarray's
+            # coordinate API from an input with an index coordinate per dimension and a non-index one on the shifted dimension)
+            handed = [e[3] for e in o.events if e[0] == "reattach"]
+            arr = handed[-1][0] if handed and isinstance(handed[-1], (list, tuple)) and handed[-1] else None
+            if not isinstance(arr, Obj) or "coords" not in arr.attrs:
+                ctx.unknown("R19.4", inst, f"the array handed to _reattach_coords is {arr!r}")
                 continue
+            old_dim, new_dim = dimsym("AX", fr), dimsym("AX", to)
+            left = arr.attrs["coords"]
+            problems = []
+            if new_dim not in arr.attrs.get("dims", ()):
+                problems.append(f"the shifted dimension is not called {new_dim!r} when the grid's coordinates are attached (dims {arr.attrs.get('dims')})")
+            stale = [k for k, v in left.items() if k in (old_dim, new_dim) or old_dim in v or new_dim in v]
             if stale:
-                ctx.report("R19.4", cfi, inst, f"operations before re-attaching are {ops[:i]}: {stale}")
+                problems.append(f"coordinate(s) {sorted(map(repr, stale))} of the abandoned position survive on the shifted dimension (a dataset without a coordinate for the target position does not overwrite them)")
+            if problems:
+                ctx.report("R19.4", cfi, inst, f"operations before re-attaching are {ops[:i]}: " + "; ".join(problems))
             else:
-                ctx.ok("R19.4", inst, "old dimension renamed; index and non-index coordinates of the input are gone before the grid's are attached")
+                ctx.ok("R19.4", inst, "shifted dimension renamed; no coordinate of the abandoned position is left on it")
         if bad:
             ctx.report("R19.1", cfi, name, bad)
         else:
             ctx.ok("R19.1", name, "returned through _reattach_coords(grid, keep_coords)")
-
-
-def _stale_before_reattach(v, i, old_dim, new_dim):
-    """Coordinate state of the cumsum result just before _reattach_coords, from its lineage.
-
-    Tokens: ('idx', d) = index coordinate named after dimension d; 'nd' = the input's non-index coordinates (any of
-    them may be defined on the shifted dimension).  xarray semantics used: rename of a dimension renames its index
-    coordinate with it; drop_vars(x.coords) removes every coordinate; reset_coords(drop=True) removes the non-index
-    ones only; reset_index(names, drop=True) removes the named index coordinates; pad() with a non-zero width works
-    on coordinate-stripped data (R19.3) and returns its input untouched when every width is zero."""
-    from ..absint import BoundMethod
-
-    state = {("idx", old_dim), ("idx", Sym("t")), "nd"}
-    dimname = old_dim
-    for e in v.eff[:i]:
-        op = e[0]
-        if op in ("cumsum", "isel", "copy", "astype", "chunk", "transpose"):
-            continue
-        if op == "PAD":
-            widths = e[1]
-            if not isinstance(widths, dict):
-                raise Unmodelled("pad widths of the cumsum path are not a mapping")
-            if any(w != (0, 0) for w in widths.values()):
-                state = set()
-        elif op == "rename":
-            m = e[1][0] if e[1] else dict(e[2])
-            if not isinstance(m, dict):
-                raise Unmodelled("rename without a mapping")
-            state = {("idx", m.get(t[1], t[1])) if isinstance(t, tuple) else t for t in state}
-            dimname = m.get(dimname, dimname)
-        elif op == "drop_vars":
-            arg = e[1][0] if e[1] else None
-            if isinstance(arg, BoundMethod) and arg.name == "coords":
-                state = set()
-            elif isinstance(arg, (list, tuple, set, frozenset)):
-                state = {t for t in state if not (isinstance(t, tuple) and t[1] in arg)}
-            elif isinstance(arg, (Sym, str)):
-                state = {t for t in state if not (isinstance(t, tuple) and t[1] == arg)}
-            else:
-                raise Unmodelled(f"drop_vars({arg!r})")
-        elif op == "reset_coords":
-            if dict(e[2]).get("drop") is True or (len(e[1]) > 1 and e[1][1] is True):
-                state.discard("nd")
-            else:
-                raise Unmodelled("reset_coords without drop=True turns the array into a dataset")
-        elif op == "reset_index":
-            names = e[1][0] if e[1] else None
-            if dict(e[2]).get("drop") is not True:
-                continue  # the index becomes a non-index coordinate: still a coordinate
-            if isinstance(names, (list, tuple)):
-                state = {t for t in state if not (isinstance(t, tuple) and t[1] in names)}
-            elif isinstance(names, (Sym, str)):
-                state = {t for t in state if t != ("idx", names)}
-            else:
-                raise Unmodelled(f"reset_index({names!r})")
-        else:
-            raise Unmodelled(f"coordinate effect of `{op}` on the cumsum path")
-    problems = []
-    if dimname != new_dim:
-        problems.append(f"the shifted dimension is called {dimname!r} when the grid's coordinates are attached, not {new_dim!r}")
-    if ("idx", old_dim) in state:
-        problems.append("the abandoned position's index coordinate survives")
-    if ("idx", new_dim) in state:
-        problems.append("the abandoned position's index coordinate survives under the new dimension's name (a dataset without a coordinate for the target position does not overwrite it)")
-    if "nd" in state:
-        problems.append("non-index coordinates of the input (possibly defined on the abandoned dimension) survive")
-    return "; ".join(problems)
 
 
 def _reattach(ctx, P):
@@ -271,52 +214,6 @@ def _reattach(ctx, P):
             ctx.report("R19.2", fi, inst, bad)
         else:
             ctx.ok("R19.2", inst, "grid coordinates that fit the result" + ("" if keep else ", non-dimension coordinates dropped"))
-
-
-def coord_tracking_models():
-    """Method / attribute models under which a modelled DataArray carries its coordinates (attrs['coords']: name -> dims,
-    an index coordinate being one named like a dimension) through xarray's coordinate API."""
-    from ..absint import BoundMethod
-
-    def names_of(arg):
-        if isinstance(arg, dict):
-            return list(arg)
-        if isinstance(arg, (list, tuple, set, frozenset)):
-            return list(arg)
-        if isinstance(arg, (Sym, str)):
-            return [arg]
-        raise Unmodelled(f"coordinate names {arg!r}")
-
-    def coords_of(o):
-        return dict(o.attrs.get("coords", {}))
-
-    def reset_coords(ev, recv, args, kw, node):
-        if kw.get("drop") is not True and not (len(args) > 1 and args[1] is True):
-            raise Unmodelled("reset_coords without drop=True turns the array into a dataset", node)
-        cur = coords_of(recv)
-        names = names_of(args[0]) if args and args[0] is not None else [k for k in cur if k not in recv.attrs.get("dims", ())]
-        return recv.with_eff(("reset_coords", tuple(args), tuple(sorted(kw.items()))), coords={k: v for k, v in cur.items() if k not in names})
-
-    def reset_index(ev, recv, args, kw, node):
-        names = names_of(args[0] if args else kw.get("dims_or_levels"))
-        cur = coords_of(recv)
-        if kw.get("drop") is True:
-            cur = {k: v for k, v in cur.items() if k not in names}
-        return recv.with_eff(("reset_index", tuple(args), tuple(sorted(kw.items()))), coords=cur)
-
-    def drop_vars(ev, recv, args, kw, node):
-        names = names_of(args[0] if args else kw.get("names"))
-        cur = {k: v for k, v in coords_of(recv).items() if k not in names}
-        return recv.with_eff(("drop_vars", tuple(names)), coords=cur)
-
-    def copy(ev, recv, args, kw, node):
-        return recv.with_eff(("copy",))
-
-    mm = {("DataArray", "reset_coords"): reset_coords, ("DataArray", "reset_index"): reset_index, ("DataArray", "drop_vars"): drop_vars,
-          ("DataArray", "copy"): copy}
-    am = {("DataArray", "coords"): lambda ev, o, n: coords_of(o), ("DataArray", "indexes"): lambda ev, o, n: {k: v for k, v in coords_of(o).items() if k in o.attrs.get("dims", ())},
-          ("DataArray", "xindexes"): lambda ev, o, n: {k: v for k, v in coords_of(o).items() if k in o.attrs.get("dims", ())}}
-    return mm, am
 
 
 def _strip(ctx, P):
